@@ -412,11 +412,15 @@ def parse(r):
     pending = sorted(H.arr, key=lambda a: (a['t'], a['G']))
     ph = case.get('phase2')
     H.rate2_from = None
+    H.rate2_busy = False
     for rec in w.log:
         if rec[0] == 'RECONF':
             H.rate2_from = rec[2]
             if rec[5]:
-                H.viol.append(('.0', 'harness: the scheduler was not idle when its rate was changed'))
+                # the rate was changed in mid busy period (the scenario is built so that this cannot happen on a scheduler
+                # that serves at its rate; if it does, the timing clauses speak first): which rate a packet in flight is
+                # served at is not defined by the statement - no verdict from the rate-dependent clauses
+                H.rate2_busy = True
     for a in H.arr:
         a['rate'] = ph['rate'] if ph and H.rate2_from is not None and a['t'] > H.rate2_from else rate
     for k, a in enumerate(H.deps):
